@@ -529,6 +529,34 @@ class Interp:
             return False
         return all(y[1] in self.cfg.finite_inputs for y in ins)
 
+    def _sum_sign(self, t: Expr):
+        """+1 / -1 when every term of the sum Σ_{i in S} body(i) is known (from a path fact all[i in S](body(i) > 0) or < 0)
+        to have one strict sign and S is known to be non-empty; None otherwise"""
+        iv, key, body = t[1], t[2], t[3]
+        if self.size_lb(key) < 1:
+            return None
+        for f in self.path:
+            if f[0] == "red" and f[1] == "all" and f[3] == key and f[4][0] == "cmp":
+                op, a, b = f[4][1], f[4][2], f[4][3]
+                fa = sym.subst_ivar(a, f[2], (iv, 0))
+                fb = sym.subst_ivar(b, f[2], (iv, 0))
+                if fb == sym.ZERO and fa == body:
+                    if op == ">":
+                        return 1
+                    if op == "<":
+                        return -1
+                if fa == sym.ZERO and fb == body:
+                    if op == "<":
+                        return 1
+                    if op == ">":
+                        return -1
+                # a > b with body = a - b
+                if sym.sub(fa, fb) == body and op == ">":
+                    return 1
+                if sym.sub(fa, fb) == body and op == "<":
+                    return -1
+        return None
+
     def _bounds(self, d: Expr):
         """(lo, hi) bounds of an affine form over Size atoms (sizes are integers >= their lower bound)"""
         terms, c = sym.lin_parts(d)
@@ -559,6 +587,17 @@ class Interp:
                 if k > 0:
                     hi = None
                 else:
+                    lo = None
+            elif t[0] == "sum" and self._sum_sign(t) is not None:
+                # a sum over a non-empty space of terms that a path fact says are all positive (an `all(x > 0)` guard that
+                # did not raise): strictly positive — recorded as the smallest positive number
+                sg = self._sum_sign(t)
+                tiny = 5e-324
+                if (sg > 0) == (k > 0):
+                    lo = None if lo is None else lo + tiny
+                    hi = None
+                else:
+                    hi = None if hi is None else hi - tiny
                     lo = None
             elif t[0] == "mul" and all(f[0] == "size" for f in t[1]):
                 # a product of sizes is at least the product of their lower bounds
